@@ -146,8 +146,10 @@ def run_jobs(jobs, timeout=600):
     import threading
     outs = [None] * len(procs)
 
+    data_of = ["".join(json.dumps(j) + "\n" for j in ch) for ch in chunks]     # fails here, in the caller, on a job that is not JSON
+
     def feed(i, p, ch):
-        data = "".join(json.dumps(j) + "\n" for j in ch)
+        data = data_of[i]
         try:
             outs[i] = p.communicate(data, timeout=timeout)[0]
         except subprocess.TimeoutExpired:
